@@ -35,6 +35,11 @@ let rres_s (pkt : n list option) (r : rres) (old : n list option) (expect : n li
   | ROob -> p ^ ";handled=OOB"
   | RFuel -> p ^ ";handled=FUEL"
 
+let r2_s pkt (r : rres2) old expect : string =
+  match r with
+  | R2 r -> rres_s pkt r old expect
+  | RUnmodelled -> "handled=UNMODELLED"
+
 let handle (pl : string) : string =
   match split pl with
   | ["enc"; cap; fr] ->
@@ -82,5 +87,26 @@ let handle (pl : string) : string =
     let p = pathport_build (n_of_string dev) (nn seq) (nn u) f in
     rres_s (Some p) (pathport_handle p (n_of_string dev) (nn hu) (buf_of old)) (buf_of old) (expect_overlay N0 f (buf_of old))
     ^ ";class=pp:" ^ (if u = hu then "same" else "other-universe")
+  | ["an"; net; sub; uni; port; huni; old; pre; fr] ->
+    let f = bytes_of_hex fr in
+    let addr = ((ios sub land 15) * 16 + (ios uni land 15)) in
+    let haddr = ((ios sub land 15) * 16 + (ios huni land 15)) in
+    let netv = ios net land 127 in
+    (match artnet_build (nn pre) (nn port) (n_of_int addr) (n_of_int netv) f with
+     | None -> "pkt=none;sent=0;class=an:not-sent"
+     | Some p ->
+       r2_s (Some p) (artnet_handle p (n_of_int netv) (n_of_int haddr) (buf_of old)) (buf_of old) (expect_artnet f)
+       ^ ";class=an:" ^ (if addr = haddr then "same" else "other-address")
+       ^ (if List.length f land 1 = 1 then ":odd" else ":even"))
+  | ["e1"; rev2; u; hu; old; pre; prio; preview; name; fr] ->
+    let f = bytes_of_hex fr in
+    let cid = List.map n_of_int [1;2;3;4;5;6;7;8;9;10;11;12;13;14;15;16] in
+    (match e131_build (rev2 = "1") cid (bytes_of_hex name) (nn prio) (nn pre) (nn u) (preview = "1") f with
+     | None -> "pkt=none;sent=0;class=e1:not-sent"
+     | Some p ->
+       r2_s (Some p) (e131_handle p (nn hu) true (buf_of old)) (buf_of old) (expect_full f)
+       ^ ";class=e1:rev" ^ (if rev2 = "1" then "2" else "3") ^ ":"
+       ^ (if u <> hu then "other-universe" else if preview = "1" && rev2 <> "1" then "preview"
+          else if ios prio > 200 then "bad-priority" else "same"))
   | _ -> "bad-op"
 let () = vh_run handle
